@@ -279,6 +279,7 @@ def main():
     cfg = props.PROPS_ALL[pid]
     t0 = time.time()
     os.makedirs(EVID, exist_ok=True)
+    vlib.prune_cache()
     os.makedirs(CACHE, exist_ok=True)
     known = [k for k in load_known() if k.get("property") == pid]
 
